@@ -6,6 +6,7 @@ through the real compute_available_needs, whose (normalised) output must equal t
 satisfy the same formulas evaluated directly in lib/prop_c04.py."""
 import json, os, time, random
 import vlib
+from concurrent.futures import ThreadPoolExecutor
 from prop_c08 import run_cases, write_cfg
 
 PID = "C04"
@@ -44,6 +45,118 @@ def judge(case, got):
         if v in theirs["need"]:
             return "partial request for a version the peer lists as needed (%d)" % v
     return None
+
+
+def units(item):
+    """a need as the set of units it asks for: (actor, version) or (actor, version, seq)"""
+    a, n = item["actor"], item["need"]
+    if n["k"] == "full":
+        return {(a, v) for v in range(n["lo"], n["hi"] + 1)}
+    if n["k"] == "partial":
+        return {(a, n["v"], x) for (lo, hi) in n["seqs"] for x in range(lo, hi + 1)}
+    return set()
+
+
+def client_round(tier, violations, mismatch, cov):
+    """the request scheduler of parallel_sync: SyncClient.tla + one real sync round of a client against two servers"""
+    import re
+    for drain in (1, 2):
+        c = write_cfg("SyncClient_%d.cfg" % drain, "SPECIFICATION Spec\nCONSTANTS\n Servers <- S\n Queues <- Q2\n Drain = %d\n Dedupe = TRUE\n MaxLen = %d\n"
+                      "INVARIANTS C04_OnlyAdvertised C04_NoDuplicate C04_AllRequested\nPROPERTIES C04_Terminates\n" % (drain, 2 if tier == "quick" else 3))
+        r = vlib.run_tlc("MCSyncClient.tla", c, workers=6, timeout=1800, budget=900)
+        if r.error:
+            raise vlib.ToolError("TLC SyncClient: %s\n%s" % (r.error, r.output[-1200:]))
+        vlib.log("[C04] TLC SyncClient Drain=%d: %d distinct, violated=%s" % (drain, r.distinct, r.violated))
+        cov["states"] += r.distinct; cov["transitions"] += r.generated
+        if r.violated:
+            mismatch.append("SyncClient.tla violates %s" % r.violated)
+    if tier == "thorough":
+        c = write_cfg("SyncClient_3.cfg", "SPECIFICATION Spec\nCONSTANTS\n Servers <- S3\n Queues <- Q3\n Drain = 1\n Dedupe = TRUE\n MaxLen = 2\n"
+                      "INVARIANTS C04_OnlyAdvertised C04_NoDuplicate C04_AllRequested\nPROPERTIES C04_Terminates\n")
+        r = vlib.run_tlc("MCSyncClient.tla", c, workers=6, timeout=2400, budget=1200)
+        if r.error:
+            raise vlib.ToolError("TLC SyncClient (3 peers): %s" % r.error)
+        cov["states"] += r.distinct; cov["transitions"] += r.generated
+        if r.violated:
+            mismatch.append("SyncClient.tla (3 peers) violates %s" % r.violated)
+    jobs = [(vlib.seed() * 100 + i, 14) for i in range(3 if tier == "quick" else 12)] + [(vlib.seed() * 100 + 50 + i, 60) for i in range(1 if tier == "quick" else 4)]
+
+    def one(job):
+        seed, nv = job
+        out = os.path.join(vlib.scratch(), "sc.%d.%d.json" % (seed, nv))
+        p = vlib.run_vh(["sync-client-probe", str(seed), str(nv), out], timeout=600, env_extra={"VH_THREADS": "4"})
+        if p.returncode != 0:
+            return job, None, p.stderr[-600:]
+        return job, json.load(open(out)), None
+    with ThreadPoolExecutor(max_workers=4) as ex:
+        res = list(ex.map(one, jobs))
+    rounds = 0
+    for (job, d, err) in res:
+        if d is None:
+            mismatch.append("sync-client-probe %s failed: %s" % (job, err[:300])); continue
+        if not d["outcome"].startswith("ok"):
+            if any(d["available"][s] for s in d["available"]):
+                mismatch.append("sync round %s did not complete: %s" % (job, d["outcome"]))
+            continue
+        rounds += 1
+        avail = {s: [units(x) for x in d["available"][s]] for s in d["available"]}
+        asked = {s: [units(x) for x in d["requests"][s]] for s in d["requests"]}
+        au = {s: set().union(*avail[s]) if avail[s] else set() for s in avail}
+        ru = {s: set().union(*asked[s]) if asked[s] else set() for s in asked}
+        fails = []
+        for s in ru:
+            extra = ru[s] - au[s]
+            if extra:
+                fails.append("server %s was asked for %s, which it does not advertise as held / the client does not lack" % (s, sorted(extra)[:4]))
+            if sum(len(x) for x in asked[s]) != len(ru[s]):
+                fails.append("server %s was asked twice for the same versions / sequences" % s)
+        both = ru.get("A", set()) & ru.get("B", set())
+        if both:
+            fails.append("%s requested from both servers in one round" % sorted(both)[:4])
+        missing = (au.get("A", set()) | au.get("B", set())) - (ru.get("A", set()) | ru.get("B", set()))
+        if missing:
+            fails.append("%s is available from a server and lacking at the client but was not requested from anybody" % sorted(missing)[:4])
+        # not judged: what is still available after the round (a whole-version need may have gone to a peer that holds the
+        # version only partially while the complete holder's need was de-duplicated; the next round asks for the rest)
+        if any(d["still_available_after"][s] for s in d["still_available_after"]):
+            cov["rounds_leaving_a_rest_for_the_next_round"] = cov.get("rounds_leaving_a_rest_for_the_next_round", 0) + 1
+        for t in fails[:2]:
+            rp = vlib.write_replay(PID, "client-round", d)
+            if len(violations) < 8:
+                violations.append(("sync round (seed %d): %s" % (job[0], t), rp))
+        # small rounds (every queue fits one turn): the real assignment must be one the specification produces
+        if not fails and all(len(avail[s]) <= 10 for s in avail) and any(avail[s] for s in avail):
+            ids = {}
+            for s in sorted(avail):
+                for need in avail[s]:
+                    for u in sorted(need):
+                        ids.setdefault(u, len(ids) + 1)
+            live = [s for s in sorted(avail) if avail[s]]
+            mod = "MCSyncClientRun_%d_%d" % (os.getpid(), job[0])
+            q = ", ".join("%s |-> <<%s>>" % (s, ", ".join("{%s}" % ", ".join(str(ids[u]) for u in sorted(need)) for need in avail[s])) for s in live)
+            path = os.path.join(vlib.SPECS, mod + ".tla")
+            open(path, "w").write("---- MODULE %s ----\nEXTENDS SyncClient\nSV == {%s}\nQS == {[%s]}\n====\n" % (mod, ", ".join('"%s"' % s for s in live), q))
+            try:
+                c = write_cfg(mod + ".cfg", "SPECIFICATION Spec\nCONSTANTS\n Servers <- SV\n Queues <- QS\n Drain = 10\n Dedupe = TRUE\nINVARIANTS C04_OnlyAdvertised C04_NoDuplicate C04_AllRequested Export\n")
+                r = vlib.run_tlc(mod + ".tla", c, workers=1, timeout=600, keep_lines=lambda l: "ASSIGN" in l)
+                if os.environ.get("VERIF_DEBUG"):
+                    vlib.log("ASSIGN lines: %r" % r.lines[:3])
+            finally:
+                os.remove(path)
+            if r.error or r.violated:
+                mismatch.append("SyncClient.tla on the scenario of seed %d: %s" % (job[0], r.error or r.violated)); continue
+            allowed = []
+            for line in r.lines:
+                if line.startswith('"'):
+                    line = json.loads(line)
+                a = json.loads(line[line.index("ASSIGN ") + 7:])
+                allowed.append({s: frozenset(a.get(s, [])) for s in live})
+            real = {s: frozenset(ids[u] for u in ru.get(s, set())) for s in live}
+            if real not in allowed:
+                rp = vlib.write_replay(PID, "client-round-model", {"scenario": d, "allowed": [{s: sorted(v) for s, v in a.items()} for a in allowed], "real": {s: sorted(v) for s, v in real.items()}})
+                mismatch.append("sync round (seed %d): the requests the servers read are no assignment SyncClient.tla produces for these needs (%s)" % (job[0], rp))
+    cov["sync_rounds_judged"] = rounds
+    vlib.log("[C04] %d real sync rounds judged" % rounds)
 
 
 def run(tier):
@@ -95,12 +208,13 @@ def run(tier):
             rnd = random.Random(vlib.seed())
             nt = [c for c in cases if c["out"]["partial"]]
             cov["samples"] = rnd.sample(nt, min(3, len(nt)))
+    client_round(tier, violations, mismatch, cov)
     cov["evaluations"] = cov["traces_validated_against_impl"]
     cov["distinct_nontrivial"] = nontrivial
     cov["rule"] = "every pair of well-formed advertised states for one origin actor (heads 0..MaxH, any need set, <= MaxP partial versions with any non-empty missing-seq set over 0..MaxS) x {actor is self, actor is foreign}; non-trivial = non-empty request"
     vlib.write_evidence(PID, tier, LEVEL, cov, time.time() - t0, violations=len(violations), assumptions=[
         "compute_available_needs treats each actor of the peer's heads independently (read from the code), so one actor is the whole input space",
-        "client-side request splitting/de-duplication in parallel_sync is not part of this check (see DESIGN.md)"])
+        "the request scheduler of parallel_sync is checked on rounds of one client against two servers over loopback QUIC; which peers are chosen for a round (members/ring0) belongs to C18"])
     return {"violations": violations, "mismatch": mismatch}
 
 
